@@ -563,7 +563,7 @@ Proof.
   unfold connect_cb.
   set (s2 := arm T_iter ITERATE_MS true (set_srpc (Some (mkrpc (conn s1) 0 [] [] empty_inb [] false None (now s1))) s1)).
   assert (C2 : core_of s2 = mkcore 0 (Some (fresh_instance (conn s + 1) (now s))) (espbuf s) (recvbuf s) L_LIVE (clrstop s) (clrconn s) (conn s + 1)).
-  { subst s2. rewrite core_arm. subst s1. stsimp. rewrite Hr. reflexivity. }
+  { subst s2. rewrite core_arm. subst s1. unfold core_of. stsimp. rewrite Hr. reflexivity. }
   assert (PF : forall t, PInst 0 (fresh_instance (conn s + 1) t)).
   { intros t. constructor; cbn.
     - intros _. repeat split.
@@ -572,9 +572,9 @@ Proof.
     - split; intros; discriminate. }
   destruct consts_ok as [? ? ? ? ? [K1 [K2 [K3 [K4 K5]]]]].
   assert (IG : forall e r, InvC (mkcore 0 (Some (fresh_instance (conn s + 1) (now s))) e r L_LIVE (clrstop s) (clrconn s) (conn s + 1))).
-  { intros e r. constructor; cbn; auto; try (intros; discriminate).
-    - intros Hp. symmetry in Hp. contradiction.
-    - intros p Hp. inversion Hp; subst p. split; [reflexivity|apply PF]. }
+  { intros e r. pose proof (i_cs _ HI) as F1. pose proof (i_cc _ HI) as F2. cbn in F1, F2.
+    constructor; cbn; auto; try (intros; discriminate).
+    intros p Hp. inversion Hp; subst p. split; [reflexivity|apply PF]. }
   assert (CC : clrconn s2 = clrconn s) by (change (c_cc (core_of s2) = clrconn s); rewrite C2; reflexivity).
   destruct (clrconn s2) eqn:Ecc.
   - set (s3 := set_recvbuf [] (set_espbuf [] s2)).
